@@ -35,7 +35,9 @@ CHECKS["C18"] = dict(
     level_text="Every history up to depth 5 (quick) / 6-8 (thorough) of posts with short/long ends, clock advances and GC runs against the real provider+store+limit bucket; the counting invariant, re-send acceptance, reported refusals and GC safety are checked after every event. Silence limits and the GET limiter are explored the same way.",
     level_note="Bounds: one alert name, <=4 distinct alerts, ends 5s/10s/200s, advances 6s/30s; limits 1,2,3. Values outside the alphabet are not explored.",
     assumptions=E1_ASSUME,
-    units=[dict(pkg="provider/mem", test="TestVerifC18Alerts", shards_quick=16, shards_thorough=16, budget_quick=60, budget_thorough=900)],
+    units=[dict(pkg="provider/mem", test="TestVerifC18Alerts", shards_quick=12, shards_thorough=16, budget_quick=60, budget_thorough=900),
+           dict(pkg="api/v2", test="TestVerifC18Silences", shards_quick=8, shards_thorough=16, budget_quick=60, budget_thorough=900),
+           dict(pkg="api", test="TestVerifC18Limiter", shards_quick=1, shards_thorough=1, budget_quick=60, budget_thorough=300)],
 )
 
 CHECKS["C03"] = dict(
